@@ -653,7 +653,11 @@ class TaskPool:
                     TASK_STATUS_FAILED,
                     TASK_STATUS_SUCCEEDED
             ):
-                for message in json.loads(outputs_str):
+                outputs = json.loads(outputs_str)
+                if isinstance(outputs, dict):
+                    # {trigger: message} (8.3+), else a list of messages
+                    outputs = outputs.values()
+                for message in outputs:
                     itask.state.outputs.set_message_complete(message)
                     self.data_store_mgr.delta_task_output(itask, message)
 
